@@ -210,7 +210,14 @@ def ObjOf (c : Chart) : Obj → Prop
   | .state s => s ∈ c.states
   | .trans t => t ∈ c.transitions
 
-/-- `env'` runs the relabelled statechart, and neither the evaluators nor the listeners can tell -/
+/-- a piece of executable code of the statechart -/
+def ExecOf (c : Chart) : ExecKind → Prop
+  | .onEntry s => s ∈ c.states
+  | .onExit s => s ∈ c.states
+  | .action t => t ∈ c.transitions
+
+/-- `env'` runs the relabelled statechart, and neither the evaluators nor the listeners can tell — as far
+    as the guards, conditions and code *of the statechart* go -/
 structure EnvR (ρ : Name → Name) (ι : Nat → Nat) (C : σ → σ → Prop) (S : Name → Prop) (env env' : Env σ ω) : Prop where
   ok : RenOK S ρ
   ren : IsRen ρ ι env.chart env'.chart
@@ -218,11 +225,11 @@ structure EnvR (ρ : Name → Name) (ι : Nat → Nat) (C : σ → σ → Prop) 
   initial : ∀ s ∈ env.chart.states, ∀ i, s.initial = some i → S i
   ignore : env'.ignoreContract = env.ignoreContract
   fuel : env'.stabFuel = env.stabFuel
-  guard : ∀ st st' t ev, StR ρ C st st' → GoodSt S st → S t.source →
+  guard : ∀ st st' t ev, StR ρ C st st' → GoodSt S st → S t.source → t ∈ env.chart.transitions →
     env'.E.guard st' (t.relabel ρ ι) ev = env.E.guard st t ev
-  cond : ∀ st st' kind obj code ev, StR ρ C st st' → GoodSt S st → ObjOf env.chart obj →
+  cond : ∀ st st' kind obj code ev, StR ρ C st st' → GoodSt S st → ObjOf env.chart obj → code ∈ obj.conds kind →
     env'.E.cond st' kind (obj.ren ρ ι) code ev = env.E.cond st kind obj code ev
-  exec : ∀ st st' k ev, StR ρ C st st' → GoodSt S st → S k.owner →
+  exec : ∀ st st' k ev, StR ρ C st st' → GoodSt S st → S k.owner → ExecOf env.chart k →
     (env'.E.exec st' (k.ren ρ ι) ev).2 = (env.E.exec st k ev).2 ∧
       C (env.E.exec st k ev).1 (env'.E.exec st' (k.ren ρ ι) ev).1
   freeze : ∀ a a' obj, ObjOf env.chart obj → C a a' → C (env.E.freeze a obj) (env'.E.freeze a' (obj.ren ρ ι))
@@ -306,15 +313,15 @@ theorem eqv_raiseAll (sent : List Sent) : EqvM ρ ι C S (fun _ _ => True) (rais
   · exact List.forall₂_same.2 (fun _ _ => rfl)
 
 theorem eqv_evalConds (kind : CondKind) (obj : Obj) (hobj : ObjOf env.chart obj) (ev : Option Event) :
-    ∀ (codes : List Code) (i : Nat),
+    ∀ (codes : List Code) (i : Nat), (∀ c ∈ codes, c ∈ obj.conds kind) →
       EqvM ρ ι C S (fun _ _ => True) (evalConds env kind obj ev i codes) (evalConds env' kind (obj.ren ρ ι) ev i codes)
-  | [], _ => EqvM.pure trivial
-  | c :: rest, i => by
+  | [], _, _ => EqvM.pure trivial
+  | c :: rest, i, hcs => by
     unfold evalConds
     apply EqvM.bind EqvM.get
     intro st st' hst
     have e : env'.E.cond st' kind (obj.ren ρ ι) c ev = env.E.cond st kind obj c ev :=
-      h.cond st st' kind obj c ev hst.1 hst.2 hobj
+      h.cond st st' kind obj c ev hst.1 hst.2 hobj (hcs c (by simp))
     simp only [e, Obj.ren_id]
     apply EqvM.bind (EqvM.emit (.cond kind obj.id i ev _))
     intro _ _ _
@@ -323,7 +330,7 @@ theorem eqv_evalConds (kind : CondKind) (obj : Obj) (hobj : ObjOf env.chart obj)
     | some b =>
       cases b with
       | false => exact EqvM.throw (ErrR.kind ρ ι kind obj.id c.src)
-      | true => exact eqv_evalConds kind obj hobj ev rest (i + 1)
+      | true => exact eqv_evalConds kind obj hobj ev rest (i + 1) (fun x hx => hcs x (by simp [hx]))
 
 theorem eqv_evalContract (kind : CondKind) (obj : Obj) (hobj : ObjOf env.chart obj) (ev : Option Event) :
     EqvM ρ ι C S (fun _ _ => True) (evalContract env kind obj ev) (evalContract env' kind (obj.ren ρ ι) ev) := by
@@ -339,7 +346,7 @@ theorem eqv_evalContract (kind : CondKind) (obj : Obj) (hobj : ObjOf env.chart o
         exact ⟨{ h1 with ctx := h.freeze _ _ obj hobj h1.ctx }, ⟨h2.config, h2.memK, h2.memV, h2.entryK, h2.idleK⟩⟩
       · exact EqvM.pure trivial
     · intro _ _ _
-      exact eqv_evalConds h kind obj hobj ev _ 0
+      exact eqv_evalConds h kind obj hobj ev _ 0 (fun _ hc => hc)
 
 theorem eqv_stateObj (n : Name) (hn : S n) :
     EqvM ρ ι C S (fun s s' => s' = s.rename ρ ∧ s.name = n ∧ s ∈ env.chart.states) (stateObj env n) (stateObj env' (ρ n)) := by
@@ -368,12 +375,12 @@ theorem eqv_stateObjs : ∀ (ns : List Name), (∀ n ∈ ns, S n) →
     · exact e ▸ hmem
     · exact hmems x hx
 
-theorem eqv_runCode (k : ExecKind) (hk : S k.owner) (ev : Option Event) :
+theorem eqv_runCode (k : ExecKind) (hk : S k.owner) (hof : ExecOf env.chart k) (ev : Option Event) :
     EqvM ρ ι C S Eq (runCode env k ev) (runCode env' (k.ren ρ ι) ev) := by
   unfold runCode
   apply EqvM.bind EqvM.get
   intro st st' hst
-  obtain ⟨e1, e2⟩ := h.exec st st' k ev hst.1 hst.2 hk
+  obtain ⟨e1, e2⟩ := h.exec st st' k ev hst.1 hst.2 hk hof
   apply EqvM.bind (Rv := fun _ _ => True)
   · apply EqvM.modify
     intro s s' h1 h2
@@ -546,7 +553,7 @@ theorem eqv_exitState (cfg0 : List Name) (hcfg : ∀ x ∈ cfg0, S x) (ev : Opti
   have hkind : (s.rename ρ).kind = s.kind := rfl
   simp only [hname, hkind, hev]
   apply EqvM.bind (EqvM.emit (.onExit s.name)); intro _ _ _
-  apply EqvM.bind (eqv_runCode h (.onExit s) hs none); intro sent sent' hsent
+  apply EqvM.bind (eqv_runCode h (.onExit s) hs hmem none); intro sent sent' hsent
   subst hsent
   apply EqvM.bind (Rv := fun _ _ => True)
   · split
@@ -581,7 +588,7 @@ theorem eqv_enterState (step step' : Micro) (hev : step'.event = step.event) (s 
   simp only [hname, hev]
   apply EqvM.bind (eqv_evalContract h .pre (.state s) hmem step.event); intro _ _ _
   apply EqvM.bind (EqvM.emit (.onEntry s.name)); intro _ _ _
-  apply EqvM.bind (eqv_runCode h (.onEntry s) hs none); intro sent sent' hsent
+  apply EqvM.bind (eqv_runCode h (.onEntry s) hs hmem none); intro sent sent' hsent
   subst hsent
   apply EqvM.bind (Rv := fun _ _ => True)
   · apply EqvM.modify
@@ -624,7 +631,7 @@ theorem eqv_fireTransition (step step' : Micro) (hev : step'.event = step.event)
   apply EqvM.bind (eqv_evalContract h .pre (.trans t) hmem step.event); intro _ _ _
   apply EqvM.bind (eqv_evalContract h .inv (.trans t) hmem step.event); intro _ _ _
   apply EqvM.bind (EqvM.emit (.action t.id step.event)); intro _ _ _
-  apply EqvM.bind (eqv_runCode h (.action t) ht step.event); intro sent sent' hsent
+  apply EqvM.bind (eqv_runCode h (.action t) ht hmem step.event); intro sent sent' hsent
   subst hsent
   apply EqvM.bind (eqv_evalContract h .post (.trans t) hmem step.event); intro _ _ _
   apply EqvM.bind (eqv_evalContract h .inv (.trans t) hmem step.event); intro _ _ _
@@ -883,7 +890,7 @@ theorem eqv_stabilize : ∀ n : Nat, EqvM ρ ι C S (MicsR ρ ι) (stabilize env
       exact EqvM.pure (by rw [MicsR] at *; simp [ha, hr])
 
 theorem eqv_logGuards (st st' : IState σ) (hst : StR ρ C st st') (hgs : GoodSt S st) (ev : Option Event) :
-    ∀ (l : List (Trans × Bool)), (∀ p ∈ l, S p.1.source) →
+    ∀ (l : List (Trans × Bool)), (∀ p ∈ l, S p.1.source ∧ p.1 ∈ env.chart.transitions) →
       EqvM ρ ι C S (fun _ _ => True) (logGuards env st ev l)
         (logGuards env' st' ev (l.map (fun p => (p.1.relabel ρ ι, p.2))))
   | [], _ => EqvM.pure trivial
@@ -891,7 +898,7 @@ theorem eqv_logGuards (st st' : IState σ) (hst : StR ρ C st st') (hgs : GoodSt
     simp only [List.map_cons, logGuards]
     have e : env'.E.guard st' (t.relabel ρ ι) (if exposed then ev else none) =
         env.E.guard st t (if exposed then ev else none) :=
-      h.guard st st' t _ hst hgs (hl (t, exposed) (by simp))
+      h.guard st st' t _ hst hgs (hl (t, exposed) (by simp)).1 (hl (t, exposed) (by simp)).2
     have hid : (t.relabel ρ ι).id = ι t.id := rfl
     simp only [e, hid]
     apply EqvM.bind (EqvM.emit (.guard t.id _ _)); intro _ _ _
@@ -900,13 +907,14 @@ theorem eqv_logGuards (st st' : IState σ) (hst : StR ρ C st st') (hgs : GoodSt
     | some b => exact eqv_logGuards st st' hst hgs ev rest (fun p hp => hl p (by simp [hp]))
 
 theorem guardOk_ren (st st' : IState σ) (hst : StR ρ C st st') (hgs : GoodSt S st) (ev : Option Event) (t : Trans)
-    (ht : S t.source) (b : Bool) : guardOk env'.E st' ev (t.relabel ρ ι) b = guardOk env.E st ev t b := by
+    (ht : S t.source) (hm : t ∈ env.chart.transitions) (b : Bool) :
+    guardOk env'.E st' ev (t.relabel ρ ι) b = guardOk env.E st ev t b := by
   unfold guardOk
   have hg : (t.relabel ρ ι).guard = t.guard := rfl
   rw [hg]
   cases t.guard with
   | none => rfl
-  | some c => simp only [h.guard st st' t _ hst hgs ht]
+  | some c => simp only [h.guard st st' t _ hst hgs ht hm]
 
 theorem eqv_computeSteps :
     EqvM ρ ι C S (fun l l' => MicsR ρ ι l l' ∧ ∀ m ∈ l, GoodStep S env.chart m) (computeSteps env) (computeSteps env') := by
@@ -936,15 +944,16 @@ theorem eqv_computeSteps :
     dsimp only
     have hsel := selectTransitions_rename (ι := ι) h.ok env.chart h.names h.ren st.config hst.2.config
       ((peekEvent st).map (·.name)) (guardOk env.E st (peekEvent st)) (guardOk env'.E st' (peekEvent st))
-      (fun t ht b => guardOk_ren h st st' hst.1 hst.2 (peekEvent st) t (h.names.transS t ht) b)
+      (fun t ht b => guardOk_ren h st st' hst.1 hst.2 (peekEvent st) t (h.names.transS t ht) ht b)
     rw [hsel]
     obtain ⟨sel, hseldef⟩ : ∃ X, X = selectTransitions env.chart st.config ((peekEvent st).map (·.name))
         (guardOk env.E st (peekEvent st)) := ⟨_, rfl⟩
     rw [← hseldef]
-    have hcalls : ∀ p ∈ sel.calls, S p.1.source := by
+    have hcalls : ∀ p ∈ sel.calls, S p.1.source ∧ p.1 ∈ env.chart.transitions := by
       intro p hp
       rw [hseldef] at hp
-      exact h.names.transS _ (calls_exposure env.chart st.config _ _ p.1 p.2 hp).1
+      exact ⟨h.names.transS _ (calls_exposure env.chart st.config _ _ p.1 p.2 hp).1,
+        (calls_exposure env.chart st.config _ _ p.1 p.2 hp).1⟩
     have hselsub : ∀ t ∈ sel.selected, t ∈ env.chart.transitions := by
       rw [hseldef]; exact selectTransitions_selected_sub _ _ _ _
     apply EqvM.bind (Rv := fun _ _ => True)
